@@ -43,6 +43,19 @@ package agreement
 // next-votes bottom). votes(prefix k) ∪ votes(after restart) must not contain two values for
 // one (round, period, step >= soft).
 //
+// SECOND LEVEL.  The same two oracles are applied to the restarted node: (A) every vote it
+// sends must be covered by its crash DB as of that moment (the restored copy until its own
+// first commit); (B) it is crashed AGAIN after each of its commits and at its end, a third
+// Service is started on that DB copy and tempted (quick: first continuation, thorough: all).
+//
+// FINDING on the unchanged tree (genuine, same defect as findings/C02-restart-overwrites-crash-state
+// found independently by part (i)): Service.mainLoop does not initialise persistRouter /
+// persistStatus / persistActions from the restored state, so the re-executed restored attest
+// action overwrites the crash DB with an EMPTY state before the vote is re-sent (keys
+// C02:restart-released-before-persisted, C02:equivocation-after-second-restart: after a second
+// crash the node soft-votes the other proposal). With the three assignments added in the
+// restore branch the check is green (550 evaluations).
+//
 // NOT COVERED: proposal-step votes (assemble / repropose are by design not persisted: a
 // restarted node may propose again — excluded from oracle B, reported to the lead);
 // fast-recovery votes (late/redo/down); more than one round; schedules other than
@@ -944,7 +957,8 @@ func TestVerif_C02_service(t *testing.T) {
 		}
 	}
 
-	var points, restarts, votesChecked, commits int64
+	var points, restarts, restarts2, votesChecked, commits int64
+	level2Conts := ve.Pick(1, len(c02iiConts)) // continuations used after the second crash
 	for _, hist := range []struct {
 		Name     string
 		LowFirst bool
@@ -1089,6 +1103,100 @@ func TestVerif_C02_service(t *testing.T) {
 					kind = evs[k-1].String()
 				}
 				run.Class(fmt.Sprintf("B|%s|after:%s|%s|%s", hist.Name, kind, c.Name, strings.Join(after, ",")))
+
+				// ---- oracle A on the restarted node: what it sends must be covered by the crash DB
+				// as of that moment (the restored copy until its own first commit)
+				lastSnap := snap
+				for j, e := range revs {
+					if e.Kind == "commit" {
+						lastSnap = e.Snap
+						continue
+					}
+					if e.ID.Step < soft {
+						continue
+					}
+					votesChecked++
+					covered := false
+					desc := "no crash state at all"
+					if lastSnap != "" {
+						p2, acts2, derr := c02iiDecodeSnap(lastSnap)
+						if derr == nil {
+							covered = c02iiCovers(p2, acts2, e)
+							desc = fmt.Sprintf("player (r%d p%d s%d), actions %v", p2.Round, p2.Period, p2.Step, acts2)
+						} else {
+							desc = "undecodable: " + derr.Error()
+						}
+					}
+					if !covered {
+						var rs []string
+						for _, x := range revs {
+							rs = append(rs, x.String())
+						}
+						run.Report("C02:restart-released-before-persisted", fmt.Sprintf("history %s, crash after event %d of %v, restart (%s): the restarted node handed %s to the network (its event %d of %v) while its crash DB held %s — a second crash at this point forgets the vote",
+							hist.Name, k, seq, c.Name, e, j, rs, desc), c02iiReplay{hist.Name, k, c.Name})
+						break
+					}
+				}
+
+				// ---- oracle B, second level: crash AGAIN after each commit of the restarted node
+				// and at its end, restart a third Service, tempt it
+				sent2 := map[c02iiVoteID]proposalValue{}
+				for id, v := range sent {
+					sent2[id] = v
+				}
+				snap2 := snap
+				for j := 0; j <= len(revs); j++ {
+					atCommit := j > 0 && revs[j-1].Kind == "commit"
+					if j > 0 {
+						e := revs[j-1]
+						if e.Kind == "commit" {
+							snap2 = e.Snap
+						} else if e.ID.Step >= soft {
+							if _, ok := sent2[e.ID]; !ok {
+								sent2[e.ID] = e.Value
+							}
+						}
+					}
+					if !(atCommit || j == len(revs)) || run.OutOfTime() {
+						continue
+					}
+					for c2i, c2 := range c02iiConts {
+						if c2i >= level2Conts {
+							break
+						}
+						r2dir := filepath.Join(rdir, fmt.Sprintf("second-j%02d-c%d", j, c2i))
+						_ = os.MkdirAll(r2dir, 0o755)
+						if snap2 != "" {
+							if err := c02iiCopyDB(filepath.Join(snap2, "crash.sqlite"), r2dir); err != nil {
+								t.Fatalf("HARNESS-FAILURE copy: %v", err)
+							}
+						}
+						r2evs, err := c02iiRestart(t, env, filepath.Join(r2dir, "crash.sqlite"), filepath.Join(r2dir, "snap"), c2, h)
+						if err != nil {
+							t.Fatalf("HARNESS-FAILURE second restart %s k=%d j=%d: %v", hist.Name, k, j, err)
+						}
+						restarts2++
+						run.Eval()
+						var after2 []string
+						for _, e := range r2evs {
+							if e.Kind != "vote" || e.ID.Step < soft {
+								continue
+							}
+							after2 = append(after2, e.String())
+							if before, ok := sent2[e.ID]; ok && before != e.Value {
+								var rs []string
+								for _, x := range revs[:j] {
+									rs = append(rs, x.String())
+								}
+								run.Report("C02:equivocation-after-second-restart", fmt.Sprintf("history %s, crash after event %d of %v, restart (%s) produced %v, second crash there, second restart (%s): the node had sent %s for (r%d p%d s%d) and now sent %s; votes after the second restart: %v",
+									hist.Name, k, seq, c.Name, rs, c2.Name, c02iiPV(before), e.ID.Round, e.ID.Period, e.ID.Step, c02iiPV(e.Value), after2), c02iiReplay{hist.Name, k, c.Name})
+								break
+							}
+						}
+						run.Class(fmt.Sprintf("B2|%s|k-kind:%s|%s|j%d|%s|%s", hist.Name, kind, c.Name, j, c2.Name, strings.Join(after2, ",")))
+						os.RemoveAll(r2dir)
+					}
+				}
 				os.RemoveAll(rdir)
 			}
 		}
@@ -1096,6 +1204,7 @@ func TestVerif_C02_service(t *testing.T) {
 	}
 	run.Set("crash_points", points)
 	run.Set("restarts", restarts)
+	run.Set("second_level_restarts", restarts2)
 	run.Set("own_votes_checked_released_after_persist", votesChecked)
 	run.Set("crash_db_commits_recorded", commits)
 	n := run.Finish(ve.Coverage{Rule: "3 histories of the real agreement.Service (round 1, periods 0-1; one with an injected crash-DB commit failure) x every prefix of the recorded commit/vote sequence x 3 tempting continuations (restart on the crash-DB copy); oracle A (released => persisted) on every own vote of step >= soft", Exhaustive: true})
